@@ -141,6 +141,21 @@ func (d *driver) buildWorker(race bool, extra ...string) (string, error) {
 	return out, nil
 }
 
+// buildServer compiles the real cmds/coredhcp (-race) from /repo's current tree for the wire engine.
+func (d *driver) buildServer() (string, error) {
+	out := filepath.Join(d.scratch, "coredhcp-race")
+	if _, err := os.Stat(out); err == nil {
+		return out, nil
+	}
+	cmd := exec.Command("go", "build", "-race", "-o", out, "github.com/coredhcp/coredhcp/cmds/coredhcp")
+	cmd.Dir = verifDir
+	b, err := cmd.CombinedOutput()
+	if err != nil {
+		return "", fmt.Errorf("building cmds/coredhcp from /repo failed: %v\n%s", err, b)
+	}
+	return out, nil
+}
+
 func (d *driver) run() int {
 	os.MkdirAll(d.workDir(), 0o755)
 	sc, err := os.MkdirTemp(d.workDir(), d.prop+"-")
@@ -181,6 +196,13 @@ func (d *driver) runOne(ri int, r *runSpec, kf *knownFile) error {
 	if err != nil {
 		// A tree that does not compile is not a property verdict.
 		return err
+	}
+	if r.serverBin {
+		sb, err := d.buildServer()
+		if err != nil {
+			return err
+		}
+		os.Setenv("VERIF_COREDHCP_BIN", sb)
 	}
 	batches, cases := d.tierSize(r)
 	if d.tier == "thorough" && os.Getenv("VERIF_THOROUGH_SCALE") != "" {
